@@ -494,6 +494,37 @@ def _rec(case, out, stats, log, sim, feats):
 
 
 # ------------------------------------------------------------------- C14
+def default_argument_state():
+    """Observable state of the objects the condition classes keep as DEFAULT ARGUMENTS (one object per class
+    definition, shared by every condition that does not override it)."""
+    import inspect
+    import torchphysics as tp
+    st = {}
+    for cname in dir(tp.conditions):
+        cls = getattr(tp.conditions, cname)
+        if not inspect.isclass(cls):
+            continue
+        try:
+            sig = inspect.signature(cls.__init__)
+        except (TypeError, ValueError):
+            continue
+        for pname, prm in sig.parameters.items():
+            d = prm.default
+            if d is inspect.Parameter.empty or isinstance(d, (int, float, str, bool, type(None), tuple)):
+                continue
+            if isinstance(d, dict):
+                val = ("dict", sorted(map(str, d.keys())))
+            elif isinstance(d, torch.nn.Module):
+                val = ("module", sorted((k, repr(v)) for k, v in vars(d).items()
+                                        if isinstance(v, (int, float, str, bool, type(None), tuple))))
+            elif hasattr(d, "as_tensor"):
+                val = ("points", tuple(d.as_tensor.shape))
+            else:
+                continue
+            st["%s.%s" % (cname, pname)] = val
+    return st
+
+
 def run_c14(case):
     """Shared world vs. solo worlds under identical per-operation draw streams."""
     out, stats, log = [], {}, []
@@ -536,6 +567,7 @@ def run_c14(case):
                 shared["sampler_x"] = make_x_sampler(first_x, shared.get("domains"))
             user_dict_before = dict(shared["data_dict"]) if "data_dict" in shared else None
             dom_state = {n_: sorted(d_.necessary_variables) for n_, d_ in (shared.get("domains") or {}).items()}
+            dflt_state = default_argument_state()
             builds = {}
             solo = {}
             for step, op in enumerate(case["history"]):
@@ -584,6 +616,13 @@ def run_c14(case):
                         if la2 != la:
                             out.append(viol("C14", "repeatable", "static-condition-loss-changes-without-optimisation", specs[i]["kind"],
                                             first=la, second=la2))
+                # (b3) default arguments are shared by every condition of a class: nothing may be written into them
+                now_d = default_argument_state()
+                if now_d != dflt_state:
+                    ch = sorted(k_ for k_ in now_d if now_d[k_] != dflt_state.get(k_))
+                    out.append(viol("C14", "containers", "default-argument-object-modified", ch[0] if ch else "",
+                                    after=op["op"], op_condition=specs[i]["kind"]))
+                    dflt_state = now_d
                 # (b'') the models are user objects too: an evaluation must leave their training mode as it found it
                 for j_, bj in builds.items():
                     m_ = bj.get("model")
